@@ -58,6 +58,21 @@ type Schema struct {
 
 func I(v int64) *int64 { return &v }
 
+// FormatSample: a valid value, in the text the generated type itself writes, for every string format that go-swagger maps to a Go type
+// (generator/formats.go; cidr is known to strfmt but not to the generator and is left out)
+var FormatSample = map[string]string{
+	"date": "2020-02-03", "date-time": "2020-02-03T04:05:06Z", "uuid": "123e4567-e89b-12d3-a456-426614174000",
+	"duration": "1h30m0s", "byte": "aGVsbG8=", "email": "someone@example.com", "uri": "http://example.com/x?y=1", "hostname": "example.com",
+	"ipv4": "10.0.0.1", "ipv6": "2001:db8::1", "mac": "00:11:22:33:44:55",
+	"uuid3": "a3bb189e-8bf9-3888-9912-ace4e6543002", "uuid4": "f47ac10b-58cc-4372-a567-0e02b2c3d479", "uuid5": "886313e1-3b8a-5372-9b90-0c9aee199e5d",
+	"isbn10": "0306406152", "isbn13": "9780306406157", "creditcard": "4111111111111111", "ssn": "123-45-6789",
+	"hexcolor": "#ff00aa", "rgbcolor": "rgb(1,2,3)", "password": "s3cret", "bsonobjectid": "507f1f77bcf86cd799439011", "ulid": "01ARZ3NDEKTSV4RRFFQ69G5FAV",
+}
+
+// StringFormats: the formats drawn by the generator (the three historical ones stay the most frequent)
+var StringFormats = []string{"date", "date-time", "uuid", "date", "date-time", "uuid", "duration", "byte", "email", "uri", "hostname", "ipv4", "ipv6", "mac",
+	"uuid3", "uuid4", "uuid5", "isbn10", "isbn13", "creditcard", "ssn", "hexcolor", "rgbcolor", "password", "bsonobjectid", "ulid"}
+
 func (s *Schema) JSON() map[string]interface{} {
 	m := map[string]interface{}{}
 	switch s.Kind {
@@ -270,7 +285,7 @@ func (g *Gen) Primitive() *Schema {
 			g.hit("pattern")
 		}
 		if g.R.Chance(1, 8) {
-			s.Format = g.R.Pick([]string{"date", "date-time", "uuid"})
+			s.Format = g.R.Pick(StringFormats)
 			s.MinLen, s.MaxLen, s.EnumS, s.Pattern = nil, nil, nil, ""
 			g.hit("format:" + s.Format)
 		}
@@ -404,13 +419,8 @@ func (g *Gen) Valid(s *Schema, defs map[string]*Schema, depth int) interface{} {
 		}
 		return g.Valid(defs[s.Ref], defs, depth+1)
 	case KString:
-		switch s.Format {
-		case "date":
-			return "2020-02-03"
-		case "date-time":
-			return "2020-02-03T04:05:06Z"
-		case "uuid":
-			return "123e4567-e89b-12d3-a456-426614174000"
+		if v, ok := FormatSample[s.Format]; ok {
+			return v
 		}
 		if len(s.EnumS) > 0 {
 			return s.EnumS[g.R.Intn(len(s.EnumS))]
